@@ -304,12 +304,16 @@ where
         };
 
         let frame = Frame::Message(req_payload);
-        self.write_half.lock().await.send(frame).await?;
+        let write_half = self.write_half.clone();
 
-        let response = tokio::time::timeout(self.request_timeout, rx)
-            .await
-            .map_err(|_| SeliumError::RequestTimeout)?
-            .map_err(|_| SeliumError::RequestFailed)?;
+        // The timeout covers handing the request to the transport as well as waiting for the
+        // reply: with a replier that has stopped reading, the send itself may never complete
+        let response = tokio::time::timeout(self.request_timeout, async move {
+            write_half.lock().await.send(frame).await?;
+            rx.await.map_err(|_| SeliumError::RequestFailed)
+        })
+        .await
+        .map_err(|_| SeliumError::RequestTimeout)??;
 
         let decoded = self.decode_response(response)?;
 
